@@ -501,4 +501,8 @@ MUTANTS += [
      "old": """          if (logger->pattern_formatter &&
               (logger->pattern_formatter->get_options() == transit_event.logger_base->pattern_formatter_options))""",
      "new": """          if (logger->pattern_formatter)"""},
+    {"id": "c17-source-logger-copy-drops-pattern", "props": ["C17"], "file": "quill/core/LoggerManager.h",
+     "desc": "create_or_get_logger(name, source_logger) copies the sinks but not the pattern options",
+     "old": "return create_or_get_logger<TLogger>(logger_name, source_logger->sinks, source_logger->pattern_formatter_options,",
+     "new": "return create_or_get_logger<TLogger>(logger_name, source_logger->sinks, PatternFormatterOptions{},"},
 ]
